@@ -104,11 +104,10 @@ impl TlsHandshaker {
         let config = self.client_config()?;
         let mut session = ClientConnection::new(config, domain)?;
 
-        while let Err(err) = session.complete_io(&mut stream) {
-            if err.kind() != io::ErrorKind::WouldBlock || !session.is_handshaking() {
-                return Err(err.into());
-            }
-        }
+        // Runs until the handshake is complete. The streams we are given are blocking: an error of kind
+        // `WouldBlock` means that the peer stayed silent for the whole read timeout, which ends the
+        // handshake like any other read.
+        session.complete_io(&mut stream)?;
 
         Ok(TlsStream {
             inner: StreamOwned::new(session, stream),
